@@ -206,7 +206,7 @@ class Builder:
 
 def gen_model(rng, d, arith, allow=None):
     fams = [("linear", 28), ("hash", 28), ("inter", 8), ("const", 5), ("multi", 18), ("zerosum", 5), ("riverlabel", 8),
-            ("riverint", 6 if arith == "float" else 0)]
+            ("riverint", 6 if arith in ("float", "exact") else 0)]
     if arith in ("npfloat", "npfloat32"):
         fams = [f for f in fams if f[0] != "zerosum"]
     if arith == "npfloat32":
@@ -238,11 +238,14 @@ def gen_model(rng, d, arith, allow=None):
 
 
 def gen_loss(rng, arith, model):
-    if arith == "float" and model["family"] in ("linear", "hash", "inter", "const", "riverint") and \
-            (model["family"] == "riverint" or rng.random() < 0.15):
-        # the deployment of the repository's examples: a real river metric object as (shared) loss
-        metric = "Accuracy" if model["family"] == "riverint" and rng.random() < 0.7 else rng.choice(["MSE", "MAE"])
+    if model["family"] == "riverint":
+        # the deployment of the repository's examples: a real river metric object as (shared) loss.  Accuracy is a
+        # DISCONTINUOUS function of the prediction, so it is only used where every prediction mean is reproduced exactly
+        # (exact-rational worlds); float worlds use the continuous MSE / MAE.
+        metric = "Accuracy" if arith == "exact" else rng.choice(["MSE", "MAE"])
         return {"family": "river", "metric": metric, "seed": 0, "sig": "pos"}
+    if arith == "float" and model["family"] in ("linear", "hash", "inter", "const") and rng.random() < 0.15:
+        return {"family": "river", "metric": rng.choice(["MSE", "MAE"]), "seed": 0, "sig": "pos"}
     if arith == "exact":
         fam = wchoice(rng, [("hash", 40), ("sq", 30), ("abs", 15), ("lin", 15)])
     else:
@@ -330,6 +333,11 @@ def gen_world_config(rng, focus, arith=None, d=None, names_kind=None):
             if rng.random() < 0.5:
                 iv["n_inner"] = rng.randint(1, 2)
             explainers.append(iv)
+    if arith == "exact" and loss["family"] == "river":
+        # a discontinuous loss needs exactly reproducible running means: no default (double) alpha
+        for e in explainers:
+            if e["cls"] in ("pfi", "sage") and e.get("dynamic", True) and "alpha" not in e:
+                e["alpha"] = rng.choice(ALPHAS)
     if arith == "exact" and loss["family"] == "hash" and any(
             e["cls"] in ("pfi", "sage") and e.get("dynamic", True) and "alpha" not in e for e in explainers):
         # default alpha is the double 0.001: the library's own weights are rounded, so values that feed the
